@@ -132,6 +132,7 @@ func walkPatterns(n ast.Node, set map[string]bool) {
 		seen := 0
 		for idx, s := range x.Statements {
 			if _, isC := s.(*ast.Comment); isC {
+				seen++ // a comment is a prefix parse function too: the next statement can merge with it
 				continue
 			}
 			if r, isRet := s.(*ast.ReturnStatement); isRet && r.ReturnValue == nil {
